@@ -207,3 +207,30 @@ class LinearMemory(Memory):
             self.write(loc, lin_add(self.read(loc), form, 1 if op == "+=" else -1))
         else:
             raise NotEvaluable("operator %s" % op)
+
+
+def iterate(loops, env, limit=200000):
+    """environments of every iteration of a nest of counted loops (descriptors from the executor), in execution order, for
+    concrete values of the dimensions in env; ascending or descending, any constant step.  NotEvaluable when a bound is not."""
+    count = [0]
+
+    def go(k, env):
+        if k == len(loops):
+            yield env
+            return
+        l = loops[k]
+        lo, hi, st = eval_term(l["lo"], env), eval_term(l["hi"], env), eval_term(l["step"], env)
+        if lo is None or hi is None or not st or "var" not in l:
+            raise NotEvaluable("loop at line %s: range [%s, %s) step %s" % (l.get("l"), sym.show(l["lo"]), sym.show(l["hi"]), sym.show(l["step"])))
+        i = lo
+        first = bool(l.get("at_least_once"))
+        while first or {"<": i < hi, "<=": i <= hi, ">": i > hi, ">=": i >= hi, "!=": i != hi}[l["cmp"]]:
+            first = False
+            count[0] += 1
+            if count[0] > limit:
+                raise NotEvaluable("more than %d iterations" % limit)
+            e2 = dict(env)
+            e2[l["var"]] = i
+            yield from go(k + 1, e2)
+            i += st
+    yield from go(0, dict(env))
